@@ -582,6 +582,7 @@ package gldap
 //@ pure muxFree(m *Mux) bool = m != nil && !held(&m.mu)
 //@ func (*gldap.Mux).Bind
 //@   requires muxFree(m)
+//@   ensures[C03] old(muxOK(m)) ==> muxOK(m)
 //@   ensures  muxFree(m)
 //@   ensures  bindFn == nil ==> result != nil && m.routes == old(m.routes)
 //@   ensures  bindFn != nil ==> result == nil && len(m.routes) == old(len(m.routes)) + 1
@@ -591,11 +592,13 @@ package gldap
 //@   tags C16 C03 C15
 //@ func (*gldap.Mux).Unbind
 //@   requires muxFree(m)
+//@   ensures[C03] old(muxOK(m)) ==> muxOK(m)
 //@   ensures  muxFree(m) && m.routes == old(m.routes)
 //@   panics false
 //@   tags C16 C03 C15
 //@ func (*gldap.Mux).Search
 //@   requires muxFree(m)
+//@   ensures[C03] old(muxOK(m)) ==> muxOK(m)
 //@   ensures  muxFree(m)
 //@   ensures  searchFn != nil ==> result == nil && len(m.routes) == old(len(m.routes)) + 1
 //@   ensures  searchFn != nil ==> result == nil && len(m.routes) == old(len(m.routes)) + 1 && forall(j, 0, old(len(m.routes)), m.routes[j] == old(m.routes[j]))
@@ -604,6 +607,7 @@ package gldap
 //@   tags C16 C03 C15
 //@ func (*gldap.Mux).ExtendedOperation
 //@   requires muxFree(m)
+//@   ensures[C03] old(muxOK(m)) ==> muxOK(m)
 //@   ensures  muxFree(m)
 //@   ensures  operationFn != nil ==> result == nil && len(m.routes) == old(len(m.routes)) + 1 && forall(j, 0, old(len(m.routes)), m.routes[j] == old(m.routes[j]))
 //@   ensures  operationFn != nil ==> typeIs(m.routes[old(len(m.routes))], *extendedRoute) && routeOK(m.routes[old(len(m.routes))]) && rbase(m.routes[old(len(m.routes))]).h == operationFn
@@ -611,6 +615,7 @@ package gldap
 //@   tags C16 C03 C15
 //@ func (*gldap.Mux).Modify
 //@   requires muxFree(m)
+//@   ensures[C03] old(muxOK(m)) ==> muxOK(m)
 //@   ensures  muxFree(m)
 //@   ensures  modifyFn != nil ==> result == nil && len(m.routes) == old(len(m.routes)) + 1 && forall(j, 0, old(len(m.routes)), m.routes[j] == old(m.routes[j]))
 //@   ensures  modifyFn != nil ==> typeIs(m.routes[old(len(m.routes))], *modifyRoute) && routeOK(m.routes[old(len(m.routes))]) && rbase(m.routes[old(len(m.routes))]).h == modifyFn
@@ -618,6 +623,7 @@ package gldap
 //@   tags C16 C03 C15
 //@ func (*gldap.Mux).Add
 //@   requires muxFree(m)
+//@   ensures[C03] old(muxOK(m)) ==> muxOK(m)
 //@   ensures  muxFree(m)
 //@   ensures  addFn != nil ==> result == nil && len(m.routes) == old(len(m.routes)) + 1 && forall(j, 0, old(len(m.routes)), m.routes[j] == old(m.routes[j]))
 //@   ensures  addFn != nil ==> typeIs(m.routes[old(len(m.routes))], *addRoute) && routeOK(m.routes[old(len(m.routes))]) && rbase(m.routes[old(len(m.routes))]).h == addFn
@@ -625,6 +631,7 @@ package gldap
 //@   tags C16 C03 C15
 //@ func (*gldap.Mux).Delete
 //@   requires muxFree(m)
+//@   ensures[C03] old(muxOK(m)) ==> muxOK(m)
 //@   ensures  muxFree(m)
 //@   ensures  modifyFn != nil ==> result == nil && len(m.routes) == old(len(m.routes)) + 1 && forall(j, 0, old(len(m.routes)), m.routes[j] == old(m.routes[j]))
 //@   ensures  modifyFn != nil ==> typeIs(m.routes[old(len(m.routes))], *deleteRoute) && routeOK(m.routes[old(len(m.routes))]) && rbase(m.routes[old(len(m.routes))]).h == modifyFn
@@ -632,6 +639,7 @@ package gldap
 //@   tags C16 C03 C15
 //@ func (*gldap.Mux).DefaultRoute
 //@   requires muxFree(m)
+//@   ensures[C03] old(muxOK(m)) ==> muxOK(m)
 //@   ensures  muxFree(m) && m.routes == old(m.routes)
 //@   panics false
 //@   tags C16 C03 C15
